@@ -71,6 +71,21 @@ class MediaList(cssutils.util._NewListBase):
         doc="The number of media in the list (DOM readonly).",
     )
 
+    def _seqindex(self, index):
+        """Position in ``seq`` of the `index`'th medium. ``seq`` may contain
+        comments too which are no media and do not count."""
+        return [i for i, item in enumerate(self._seq) if item.type == 'MediaQuery'][
+            index
+        ]
+
+    def __getitem__(self, index):
+        "The `index`'th medium, consistent with ``length`` and iteration."
+        return self._seq[self._seqindex(index)].value
+
+    def __delitem__(self, index):
+        "Remove the `index`'th medium, consistent with ``length`` and iteration."
+        del self._seq[self._seqindex(index)]
+
     def _getMediaText(self):
         return cssutils.ser.do_stylesheets_medialist(self)
 
